@@ -213,11 +213,20 @@ def build_harness(name, harness_srcs, repo_srcs, extra_flags=(), shim="shim_time
     exe = os.path.join(d, name)
     if os.path.exists(exe):
         return exe
+    os.makedirs(os.path.join(CACHE, "bin"), exist_ok=True)
+    with open(os.path.join(CACHE, "bin", "build.lock"), "w") as lk:
+        fcntl.flock(lk, fcntl.LOCK_EX)          # one build at a time; the others then find the binary
+        return _build_harness_locked(name, hs, repo_srcs, extra_flags, shim, libs, d, exe)
+
+
+def _build_harness_locked(name, hs, repo_srcs, extra_flags, shim, libs, d, exe):
+    if os.path.exists(exe):
+        return exe
     os.makedirs(d, exist_ok=True)
     # keep the cache small: only the most recent builds survive
-    olds = sorted(glob.glob(os.path.join(CACHE, "bin", "*")), key=os.path.getmtime)
-    for o in olds[:-8]:
-        if o != d:
+    olds = sorted([o for o in glob.glob(os.path.join(CACHE, "bin", "*")) if os.path.isdir(o)], key=os.path.getmtime)
+    for o in olds[:-12]:
+        if o != d and time.time() - os.path.getmtime(o) > 3600:
             shutil.rmtree(o, ignore_errors=True)
     tmp = tempfile.mkdtemp(prefix="iodh.")
     try:
